@@ -10,6 +10,13 @@ Sub-checks
            the raw values.  Every object an earlier step was applied to, and every matrix handed over as an argument,
            is kept alive and re-verified (labels, unscaled values, NaN positions) after every later step.
   scaled   the generic DenseScaledMatrix: rescale / unscale (in place and not), transform / untransform.
+  operands one receiver (any of the five concrete classes of the family) x every kind of operand (a matrix of each of
+           the five classes, nested lists / tuples, a list of row arrays, a DataFrame, a generic scaled matrix, ndarrays
+           in Fortran order / strided / read-only) x every taxa-axis operation that takes an operand (insert / adjoin /
+           append / incorp / concat, through the *_taxa method or the generic axis dispatcher).  Whatever the library
+           decides about a combination, the outcome must be one of two: a clean refusal (ValueError / TypeError) that
+           leaves the receiver and the operand describing their own taxa, or a result in which every taxon -- the
+           receiver's and the operand's -- still unscales to its raw values.
 
 Oracle: python lists + fractions.Fraction (exact mean / variance of the raw floats); tolerances are forward error
 bounds in eps = 2**-52 (see the helpers), never a fixed 1e-6.
@@ -27,6 +34,8 @@ from pybrops.core.mat.DenseScaledMatrix import DenseScaledMatrix
 from pybrops.popgen.bvmat.DenseBreedingValueMatrix import DenseBreedingValueMatrix
 from pybrops.popgen.bvmat.DenseEstimatedBreedingValueMatrix import DenseEstimatedBreedingValueMatrix
 from pybrops.popgen.bvmat.DenseGenomicEstimatedBreedingValueMatrix import DenseGenomicEstimatedBreedingValueMatrix
+from pybrops.model.wgebvmat.DenseWeightedGenomicEstimatedBreedingValueMatrix import DenseWeightedGenomicEstimatedBreedingValueMatrix
+from pybrops.model.embvmat.DenseExpectedMaximumBreedingValueMatrix import DenseExpectedMaximumBreedingValueMatrix
 
 ASSUMPTIONS = [
     "raw values are finite float64 of magnitude <= ~1e12 with spreads far above the subnormal range (1/std must not overflow)",
@@ -41,6 +50,12 @@ ASSUMPTIONS = [
     "keep its labels and unscaled values whatever is done later to the objects derived from it: 'built from raw values "
     "... unscaling reproduces the raw value of every taxon' has no expiry",
     "targmax/targmin may return any index whose raw value ties with the extremum after rounding",
+    "operands: which operand types an operation accepts is not part of the property; a ValueError / TypeError is a clean "
+    "refusal for every combination.  What a matrix of the family holds is unambiguous (its taxa's raw values), so if it is "
+    "accepted its taxa must arrive with those values; a nested list / tuple / DataFrame / ndarray is read as raw values by "
+    "the copying operations (insert, adjoin: that is how they document the ndarray operand) and is ambiguous for the "
+    "in-place ones (append, incorp: only the receiver's own taxa are asserted there); the generic scaled matrix operand "
+    "has location 0 / scale 1 so that the values it stores and the values it represents coincide",
 ]
 
 EPS = 2.0 ** -52
@@ -49,6 +64,8 @@ CLASSES = {
     "E": DenseEstimatedBreedingValueMatrix,
     "G": DenseGenomicEstimatedBreedingValueMatrix,
 }
+# the whole family of concrete classes (the model-level ones inherit every taxa-axis operation and from_numpy)
+FAMILY = dict(CLASSES, W=DenseWeightedGenomicEstimatedBreedingValueMatrix, M=DenseExpectedMaximumBreedingValueMatrix)
 
 
 # ----------------------------------------------------------------------------------------------------------------
@@ -318,7 +335,7 @@ def check_summaries(ctx, obj, rows, pre, k, stale=False, opname="", M=None, unst
 
 
 def build(case_cls, rows, names, grp):
-    cls = CLASSES[case_cls]
+    cls = FAMILY[case_cls]
     return cls.from_numpy(
         to_array(rows),
         taxa=None if names is None else numpy.array(names, dtype=object),
@@ -754,6 +771,188 @@ def check_scaled(case, ctx):
                                   lambda: "(%d,%d): untransform(transform(%r)) = %r" % (i, j, x, float(back[i, j])))
 
 
+# ----------------------------------------------------------------------------------------------------------------
+# sub-check 4: every kind of operand x every receiver class x every operation that takes an operand
+# ----------------------------------------------------------------------------------------------------------------
+MATRIX_FORMS = ["B", "E", "G", "W", "M"]
+ARRAYLIKE_FORMS = ["list", "tuple", "rowarrays", "dataframe", "scaledmat"]       # not ndarrays
+NDARRAY_FORMS = ["ndarray", "ndarray_f", "ndarray_view", "ndarray_ro"]
+FORMS = MATRIX_FORMS + ARRAYLIKE_FORMS + NDARRAY_FORMS
+OPERAND_OPS = ["insert", "adjoin", "append", "incorp", "concat"]
+
+
+@st.composite
+def operands_case(draw):
+    recv = draw(st.sampled_from(["B", "E", "G", "W", "M", "E", "G"]))
+    n = draw(st.integers(1, 6))
+    t = draw(st.integers(1, 3))
+    profiles = [draw(col_profile()) for _ in range(t)]
+    rows = draw(rows_strategy(n, profiles))
+    k = draw(st.integers(1, 3))
+    add = draw(rows_strategy(k, profiles, keep_one=False, nan_odds=5))
+    has_grp = draw(st.booleans())
+    return {"recv": recv, "rows": rows, "add": add, "kinds": [p["kind"] for p in profiles],
+            "grp": [draw(st.integers(0, 3)) for _ in range(n)] if has_grp else None,
+            "addgrp": [draw(st.integers(0, 3)) for _ in range(k)] if has_grp else None,
+            "pos": draw(st.integers(0, 10 ** 6)),
+            # one bit per (form, operation): through the generic axis dispatcher / labels given explicitly / operand first
+            "generic": draw(st.integers(0, 2 ** 70 - 1)), "labels": draw(st.integers(0, 2 ** 70 - 1)),
+            "axis": draw(st.sampled_from([0, -2]))}
+
+
+def check_operands(case, ctx):
+    rname = case["recv"]
+    R = FAMILY[rname]
+    rows, add = case["rows"], case["add"]
+    n, k, t = len(rows), len(add), len(rows[0])
+    has_grp = case["grp"] is not None
+    names = ["r%02d" % i for i in range(n)]
+    addnames = ["a%02d" % i for i in range(k)]
+    M = [max([abs(v) for v in nonnan(column(rows + add, j))] + [0.0]) for j in range(t)]
+    pos = case["pos"] % (n + 1)
+    axis = case["axis"]
+    ctx.label("receiver_" + rname)
+    ctx.label("grouped", has_grp)
+    ctx.nontrivial(n >= 2 and any(not col_oracle(nonnan(column(rows, j)))["const"] for j in range(t)))
+
+    def operand(form):
+        """-> (object handed to the operation, is it a matrix of the family, is it the receiver's class or a subclass)"""
+        a = to_array(add).reshape(k, t)
+        if form in FAMILY:
+            o = build(form, add, addnames, case["addgrp"])
+            return o, True, isinstance(o, R)
+        if form == "list":
+            return [[float(v) for v in r] for r in a], False, False
+        if form == "tuple":
+            return tuple(tuple(float(v) for v in r) for r in a), False, False
+        if form == "rowarrays":
+            return [r.copy() for r in a], False, False
+        if form == "dataframe":
+            import pandas
+            return pandas.DataFrame(a.copy()), False, False
+        if form == "scaledmat":
+            return DenseScaledMatrix(a.copy(), numpy.zeros(t), numpy.ones(t)), False, False
+        if form == "ndarray":
+            return a, False, False
+        if form == "ndarray_f":
+            return numpy.asfortranarray(a), False, False
+        if form == "ndarray_view":
+            wide = numpy.full((2 * k + 1, 2 * t + 1), 1.0e3)
+            wide[1::2, 1::2] = a
+            return wide[1::2, 1::2], False, False
+        if form == "ndarray_ro":
+            a.setflags(write=False)
+            return a, False, False
+        raise AssertionError(form)
+
+    def same_labels(obj, wantn, wantg):
+        return (obj.taxa is not None and list(obj.taxa) == wantn
+                and ((obj.taxa_grp is None and not has_grp)
+                     or (has_grp and obj.taxa_grp is not None and [int(g) for g in obj.taxa_grp] == wantg)))
+
+    bit = 0
+    for form in FORMS:
+        for op in OPERAND_OPS:
+            generic = bool((case["generic"] >> bit) & 1)
+            explicit = bool((case["labels"] >> bit) & 1)
+            bit += 1
+            if op == "concat" and form not in FAMILY:
+                continue          # a list of matrices holding something that is no matrix at all: not a taxa-axis operation
+            pre = "operands.%s." % op
+            recv = build(rname, rows, names, case["grp"])
+            val, is_bv, legit = operand(form)
+            explicit = explicit or not is_bv          # labels always accompany an operand that carries none itself
+            kind = ("matrix_of_receiver_class" if form == rname else "matrix_of_a_subclass" if legit else
+                    "matrix_of_parent_or_sibling_class" if is_bv else "ndarray" if form in NDARRAY_FORMS else "array_like")
+            kw = {}
+            if explicit:
+                kw["taxa"] = numpy.array(addnames, dtype=object)
+                if has_grp:
+                    kw["taxa_grp"] = numpy.array(case["addgrp"], dtype=int)
+            snap = (recv.mat.copy(), recv.location.copy(), recv.scale.copy())
+            inplace = op in INPLACE
+            first = True
+            what = "%s.%s%s(%s operand%s)" % (R.__name__, op, "" if generic else "_taxa",
+                                              type(val).__name__ if form not in NDARRAY_FORMS else form,
+                                              ", labels passed" if explicit else "")
+            try:
+                if op == "insert":
+                    new = recv.insert(pos, val, axis=axis, **kw) if generic else recv.insert_taxa(pos, val, **kw)
+                elif op == "adjoin":
+                    new = recv.adjoin(val, axis=axis, **kw) if generic else recv.adjoin_taxa(val, **kw)
+                elif op == "append":
+                    recv.append(val, axis=axis, **kw) if generic else recv.append_taxa(val, **kw)
+                    new = recv
+                elif op == "incorp":
+                    recv.incorp(pos, val, axis=axis, **kw) if generic else recv.incorp_taxa(pos, val, **kw)
+                    new = recv
+                else:
+                    first = not explicit if is_bv else (case["labels"] >> bit) & 1 == 0     # receiver first / operand first
+                    mats = [recv, val] if first else [val, recv]
+                    new = R.concat(mats, axis=axis) if generic else R.concat_taxa(mats)
+            except (ValueError, TypeError) as e:
+                # ---- a clean refusal: nothing with altered values may be left behind ---------------------------------
+                ctx.label("refused_" + kind)
+                ctx.check(numpy.array_equal(snap[0], recv.mat, equal_nan=True)
+                          and numpy.array_equal(snap[1], recv.location, equal_nan=True)
+                          and numpy.array_equal(snap[2], recv.scale, equal_nan=True)
+                          and same_labels(recv, names, case["grp"]),
+                          pre + "refused_but_receiver_changed",
+                          lambda: "%s raised %s(%s) and left the receiver changed (taxa %s)"
+                          % (what, type(e).__name__, e, None if recv.taxa is None else list(recv.taxa)))
+                if is_bv:
+                    check_unscaled(ctx, val, add, "operands.refused_operand.", 2, M)
+                continue
+
+            # ---- accepted: every taxon of the result carries its raw values --------------------------------------------
+            ctx.label("accepted_" + kind)
+            if op in ("insert", "incorp"):
+                lo = pos
+                mrows, mnames = rows[:pos] + add + rows[pos:], names[:pos] + addnames + names[pos:]
+                mgrp = (case["grp"][:pos] + case["addgrp"] + case["grp"][pos:]) if has_grp else None
+            elif op in ("adjoin", "append") or first:
+                lo = n
+                mrows, mnames = rows + add, names + addnames
+                mgrp = (case["grp"] + case["addgrp"]) if has_grp else None
+            else:
+                lo = 0
+                mrows, mnames = add + rows, addnames + names
+                mgrp = (case["addgrp"] + case["grp"]) if has_grp else None
+            newrows = set(range(lo, lo + k))
+            if not ctx.check(getattr(new, "mat", None) is not None and new.mat.shape == (n + k, t), pre + "shape",
+                             lambda: "%s: result %r" % (what, getattr(getattr(new, "mat", None), "shape", None))):
+                continue
+            # the documented operand kinds (own class / subclass, or labels given) must arrive with their labels; for any
+            # other accepted kind only the values are asserted
+            if explicit or legit:
+                ctx.check(same_labels(new, mnames, mgrp), pre + "labels",
+                          lambda: "%s: taxa %s groups %s, expected %s %s"
+                          % (what, None if new.taxa is None else list(new.taxa),
+                             None if new.taxa_grp is None else list(new.taxa_grp), mnames, mgrp))
+            skip = set()
+            if op == "concat":
+                if ctx.known("F-C15-b", True):                   # joins the scaled matrices under location 0 / scale 1
+                    skip = set(range(n + k))
+            elif inplace:
+                if not is_bv:
+                    ctx.label("inplace_non_matrix_operand_values_not_asserted")
+                    skip = newrows                               # raw or already scaled: not defined
+                elif ctx.known("F-C15-c", True):                 # the operand's scaled values are spliced in
+                    skip = newrows
+            keep = [i for i in range(n + k) if i not in skip]
+            bad = check_unscaled(ctx, new, mrows, pre, 6, M, keep=keep)
+            if not inplace:
+                ctx.check(numpy.array_equal(snap[0], recv.mat, equal_nan=True)
+                          and numpy.array_equal(snap[1], recv.location, equal_nan=True)
+                          and numpy.array_equal(snap[2], recv.scale, equal_nan=True)
+                          and same_labels(recv, names, case["grp"]), pre + "source_mutated",
+                          lambda: "%s changed its receiver" % what)
+            if is_bv:
+                check_unscaled(ctx, val, add, "operands.operand_object.", 2, M)
+            if not skip and not bad and op in ("insert", "adjoin"):
+                check_summaries(ctx, new, mrows, "operands.summary.", 6, M=M, opname=" after " + what)
+
+
 SUBCHECKS = [
     SubCheck("values", check_values, values_case(), quick=1500, thorough=4000, shards_quick=4,
              rule="generated raw (n 1-12, t 1-3) matrices by column profile (normal, ints, constant exact/inexact mean, offsets "
@@ -771,4 +970,14 @@ SUBCHECKS = [
     SubCheck("scaled", check_scaled, scaled_case(), quick=800, thorough=2500, shards_quick=2,
              rule="DenseScaledMatrix (matrix or cube) with explicit location/scale + 1-5 of rescale/unscale (in place or copy) / "
                   "transform+untransform; non-trivial = >= 3 rows and >= 2 distinct operations"),
+    SubCheck("operands", check_operands, operands_case(), quick=110, thorough=300, shards_quick=4,
+             rule="one receiver (class B/E/G/W/M, 1-6 taxa, grouped or not) and one block of 1-3 new taxa; inside the case the "
+                  "block is offered as EVERY operand kind (matrix of each of the 5 classes, list, tuple, list of row arrays, "
+                  "DataFrame, generic scaled matrix, ndarray C/F/strided/read-only) to EVERY operand-taking operation (insert, "
+                  "adjoin, append, incorp, concat; *_taxa or the generic dispatcher with axis 0 / -2; labels explicit or taken "
+                  "from the operand; concat with matrix operands only) on a fresh receiver: 61 operations per case; non-trivial = >= 2 receiver taxa "
+                  "and >= 1 non-constant trait",
+             required_labels=("receiver_B", "receiver_E", "receiver_G", "receiver_W", "receiver_M",
+                              "refused_matrix_of_parent_or_sibling_class", "accepted_matrix_of_a_subclass",
+                              "accepted_matrix_of_receiver_class", "refused_array_like", "accepted_ndarray")),
 ]
